@@ -12,7 +12,8 @@ Contracts:
      get_cider_exponent(_gga), get_s2, ds2, get_alpha, dalpha, dtauw, get_single_orbital_tau, the four semilocal feature fills and their
      reverse passes (nspin 1, 2), _get_rho_and_inh and the normalisers' forward/backward routines, the feature maps on x >= 0.
      The 1e-16 regularisers are kept exact here.
- (c) cider_ind_clip / spline index: engine C (contracts/c08c.py).
+ (c) C routines applied at the cutoffs (engine C, value mode): smooth_cider_exponents, cider_ind_etb / _zexp, cider_coefs_vk1_*: every division the routine
+     executes has a non-zero divisor for every admissible input (exponent anywhere in [0, inf) including exactly at the saturation point amax).
 """
 import os
 import sys
@@ -150,6 +151,23 @@ def unit_zero_wrapper1(mode, nspin):
                     is_zero(ctx, "dres[%d,%d,g] = 0 below rhocut#%d" % (s, i, pi_), H, dres[s, i, 0], fq)
             H2 = [tm.mk_lt(tm.ZERO, RC)] + [tm.mk_lt(RC, X0[s, 0, 1]) for s in range(nspin)] + pc
             ctx.canary("canary#%d" % pi_, H2, vc.simplify_ite(H2, res[1]), tm.ZERO)
+        # SEP, two channels: the cutoff is per channel — a channel below it contributes nothing even when the other channel is above it
+        if mode == "SEP" and nspin == 2:
+            for lo in (0, 1):
+                hi = 1 - lo
+                hyps1 = [tm.mk_lt(tm.ZERO, RC), tm.mk_lt(X0[lo, 0, 0], RC), tm.mk_le(RC, X0[hi, 0, 0])]
+                it.hyps = list(hyps1)
+                for pi_, (o, v, pc, _) in enumerate(all_paths(it, lambda: it.call(K, [X0.copy()], {"rhocut": RC}))):
+                    if o != "return":
+                        ctx.holds("one channel below: total#%d" % pi_, False, "raises %s" % (v,), fq)
+                        continue
+                    res, dres = v
+                    H = hyps1 + pc
+                    rg = vc.simplify_ite(H, res[0])
+                    for i in range(c04.N0):
+                        is_zero(ctx, "channel %d below rhocut, channel %d above: dres[%d,%d,g] = 0#%d" % (lo, hi, lo, i, pi_), H, dres[lo, i, 0], fq)
+                        is_zero(ctx, "channel %d below rhocut, channel %d above: res[g] does not depend on feature %d of the cut channel#%d" % (lo, hi, i, pi_), H,
+                                tm.diff(tm.lift(rg), X0[lo, i, 0]), fq)
     return run
 
 
@@ -194,6 +212,24 @@ def unit_zero_wrapper2(mode, nspin):
             for k in range(2):
                 for c in range(vt[k].shape[0]):
                     ctx.equal("no ML contribution to vrho_tuple[%d][%d,g]#%d" % (k, c, pi_), H, vc.simplify_ite(H, vt[k][c, 0]), vc.simplify_ite(H, vt0[k][c, 0]), fq)
+        # SEP, two channels: the cutoff is per channel — a channel below it contributes nothing even when the OTHER channel lifts the total density above it
+        if mode == "SEP" and nspin == 2:
+            for lo in (0, 1):
+                hi = 1 - lo
+                hyps1 = [tm.mk_lt(tm.ZERO, RC), tm.mk_lt(nspin * rho[lo, 0], RC), tm.mk_le(RC, nspin * rho[hi, 0])] + [tm.mk_lt(tm.ZERO, r) for r in rho.reshape(-1)]
+                it.hyps = list(hyps1)
+                for pi_, (o, v, pc, _) in enumerate(all_paths(it, lambda: call(K))):
+                    if o != "return":
+                        ctx.holds("one channel below: total#%d" % pi_, False, "raises %s" % (v,), fq)
+                        continue
+                    (f, dX), vt = v
+                    H = hyps1 + pc
+                    fg = vc.simplify_ite(H, f[0])
+                    for i in range(c04.N0):
+                        is_zero(ctx, "channel %d below rhocut, channel %d above: dfdX0T[%d,%d,g] = 0#%d" % (lo, hi, lo, i, pi_), H, dX[lo, i, 0], fq)
+                        is_zero(ctx, "channel %d below rhocut, channel %d above: the energy at g does not depend on feature %d of the cut channel#%d" % (lo, hi, i, pi_), H,
+                                tm.diff(tm.lift(fg), X0[lo, i, 0]), fq)
+                    ctx.canary("one-channel canary (the channel above the cutoff does contribute)#%d%d" % (lo, pi_), H, vc.simplify_ite(H, dX[hi, 0, 0]), tm.ZERO)
     return run
 
 
@@ -393,6 +429,83 @@ def unit_safety_maps(ctx):
         safety_obligations(ctx, "fill_deriv_[%s]" % cls.name, hyps, lambda: it.call_method(obj, "fill_deriv_", [d.copy(), g.copy(), x.copy()]), fq[1:])
 
 
+# ------------------------------------------------------------------------------- (c) C routines: divisions
+def _arr_pos(name, strict=True):
+    """requires over every element of a read-only input array: instantiated on each read term rd:<name>(k) occurring in the obligations"""
+    return ("array", name, strict)
+
+
+C_DIV = {
+    # fn: (file, requires(args) -> list of hypotheses / array requirements)
+    "smooth_cider_exponents": ("mod_cider/cider_coefs.c", lambda a: [tm.mk_lt(tm.ZERO, a["amax"]), _arr_pos("a", strict=False)]),
+    "cider_ind_etb": ("mod_cider/cider_coefs.c", lambda a: [tm.mk_lt(tm.ZERO, a["alpha0"]), tm.mk_lt(tm.ONE, a["lambd"]), tm.mk_lt(tm.ZERO, tm.mk_fn("log", a["lambd"])), _arr_pos("exp_g")]),
+    "cider_ind_zexp": ("mod_cider/cider_coefs.c", lambda a: [tm.mk_lt(tm.ZERO, a["alpha0"]), tm.mk_lt(tm.ONE, a["lambd"]), tm.mk_lt(tm.ZERO, tm.mk_fn("log", a["lambd"])), _arr_pos("exp_g", strict=False)]),
+    "cider_coefs_vk1_gq": ("mod_cider/cider_coefs.c", lambda a: [_arr_pos("alphas")]),
+    "cider_coefs_vk1_qg": ("mod_cider/cider_coefs.c", lambda a: [_arr_pos("alphas")]),
+}
+
+
+def unit_c_divisions(fn):
+    def run(ctx):
+        from cvc import cparse
+        from cvc.csym import CSym, CUnsupported
+        from contracts import c10
+        rel, req = C_DIV[fn]
+        fq = ["lib/%s:%s" % (rel, fn)]
+        tu = cparse.load(rel)
+        sy = CSym([tu] + [cparse.load(h) for h in c10.HELPER_TUS if h != rel])
+        try:
+            args = {p: c10.mk_value(tu, ty, p) for p, ty in tu.params(fn)}
+            sy.run(fn, args)
+        except CUnsupported as e:
+            ctx.undecided("%s summarised" % fn, str(e)[:200], fq)
+            return
+        reqs = req(args)
+        hyps = c10.nonneg_hyps(args) + [r for r in reqs if isinstance(r, tm.T)] + [t for kind, t, g, q, w in sy.side if kind == "assume"]
+        arr_req = [r for r in reqs if isinstance(r, tuple)]
+        ctx.assume("requires of %s: %s" % (fn, "; ".join([tm.show(r, 60) for r in reqs if isinstance(r, tm.T)] + ["every element of %s is %s 0" % (r[1], ">" if r[2] else ">=") for r in arr_req])
+                   + " (log(lambd) > 0 is the instance of the monotonicity of log for lambd > 1)"))
+        divs = [(t, g) for kind, t, g, q, w in sy.side if kind == "div"]
+        seen = set()
+        n = 0
+        for t, g in divs:
+            if t.op == "c":
+                if t.args[0] == 0:
+                    ctx.holds("%s divisor #%d is not the constant zero" % (fn, n), False, "", fq)
+                continue
+            key = (t.id, tuple(x.id for x in g))
+            if key in seen:
+                continue
+            seen.add(key)
+            H = list(hyps) + list(g)
+            for u in tm.subterms(t).values():
+                if u.op == "f" and isinstance(u.args[0], str) and u.args[0].startswith("rd:"):
+                    for _, an, strict in arr_req:
+                        if u.args[0] == "rd:" + an:
+                            H.append(tm.mk_lt(tm.ZERO, u) if strict else tm.mk_le(tm.ZERO, u))
+            ctx.valid("%s: divisor %s is non-zero for every admissible input" % (fn, tm.show(t, 60)), H, tm.mk_not(tm.mk_eq(t, tm.ZERO)), fq, replay=replay_c_division(fn))
+            n += 1
+        ctx.holds("%s: divisions found and examined" % fn, len(divs) > 0, "", fq)
+    return run
+
+
+def replay_c_division(fn):
+    def replay(wit):
+        import ctypes
+        from pyvc import native
+        if fn != "smooth_cider_exponents":
+            return {"reproduced": None, "note": "native replay implemented for smooth_cider_exponents"}
+        lib = ctypes.CDLL(native.build_libs() + "/libmcider.so")
+        amax = 6.4
+        a = np.array([0.0, 0.5 * amax, amax, np.nextafter(amax, 0), np.nextafter(amax, 10), 2 * amax, 1e3 * amax], dtype=np.float64)
+        d0 = np.ones_like(a)
+        ptrs = (ctypes.c_void_p * 1)(d0.ctypes.data_as(ctypes.c_void_p))
+        lib.smooth_cider_exponents(a.ctypes.data_as(ctypes.c_void_p), ptrs, ctypes.c_double(amax), ctypes.c_int(a.size), ctypes.c_int(1))
+        bad = [int(i) for i in range(a.size) if not (np.isfinite(a[i]) and np.isfinite(d0[i]))]
+        return {"reproduced": bool(bad), "amax": amax, "non_finite_at_input_index": bad, "saturated_exponents": [float(x) for x in a], "derivative_factors": [float(x) for x in d0]}
+    return replay
+
+
 def units():
     u = []
     for gga in (False, True):
@@ -408,6 +521,8 @@ def units():
         u.append(("safety-norm/" + m, unit_safety_norm(m)))
         for nspin in (1, 2):
             u.append(("safety-semilocal/%s/nspin%d" % (m, nspin), unit_safety_semilocal(m, nspin)))
+    for fn in C_DIV:
+        u.append(("c-divisions/" + fn, unit_c_divisions(fn)))
     u.append(("safety-settings", unit_safety_settings))
     u.append(("safety-maps", unit_safety_maps))
     return u
